@@ -86,6 +86,9 @@ def pkt_line(p: Any) -> str:
     return "pkt " + sers.show(p)
 
 
+RETAINED = {"packets_retained_and_rechecked": 0, "buffer_like_packets": 0, "mutated": 0}   # evidence counters
+
+
 class Retain:
     """The application keeps the packets it was given.  Every delivered packet is retained here as the very object the
     consumer returned, next to the text it had at the moment of delivery; `finish()` is called once the whole stream has been
@@ -101,6 +104,9 @@ class Retain:
         ln = pkt_line(p)
         self.kept.append((len(self.kept), ln, p))
         lines.append(ln)
+        RETAINED["packets_retained_and_rechecked"] += 1
+        if isinstance(p.v if isinstance(p, Wrapped) else p, (memoryview, bytearray)):
+            RETAINED["buffer_like_packets"] += 1
 
     def finish(self, lines: list[str]) -> None:
         for i, then, p in self.kept:
@@ -109,6 +115,7 @@ class Retain:
             except Exception as e:  # noqa: BLE001
                 now = f"unreadable ({type(e).__name__}: {e})"
             if now != then:
+                RETAINED["mutated"] += 1
                 lines.append(f"mutated #{i} {then[4:]} -> {now[4:] if now.startswith('pkt ') else now}")
         self.kept.clear()
 
@@ -223,6 +230,11 @@ def codec_items(spec: dict, model_lines: list[str], conv: bool = False, poison: 
                 p = frame_decode(spec, ser, data)
             except DeserializeError:
                 out.append("err parse")
+                continue
+            except Exception as e:  # noqa: BLE001
+                # the real one-shot codec let something else than DeserializeError out: never the harness' crash, always a
+                # visible difference (the real run of the same bytes is judged by the oracle)
+                out.append(f"codec-exc {type(e).__name__}")
                 continue
             if c is not None:
                 try:
